@@ -30,6 +30,10 @@ fn is_zero(n: &usize) -> bool {
 
 /// The bytes of a generated file.
 pub fn file_bytes(cseed: u64, size: usize, period: usize) -> Vec<u8> {
+    if cseed == 0 {
+        // content seed 0: a file of zero bytes (sparse files, "holes")
+        return vec![0u8; size];
+    }
     if period == 0 || size <= period {
         return rng::content(cseed, size);
     }
